@@ -155,33 +155,29 @@ Definition toplabel_ok (ds : bytes) : bool :=
 
 (** the CIDR part; [s] starts at the '/'.  None = SPF_PERMERROR *)
 Definition parse_cidr (s : bytes) : option (Z * Z) :=
-  match s with
-  | 47 :: c =>
-      let r4 :=
-        if hd0 c =? 47 then Some ((-1)%Z, s)
-        else if at_end c then None
-        else let '(v, cend) := strtol_c c in
-             let v := to_int32 v in
-             if (v <? 0)%Z || (CIDR4_MAX <? v)%Z || negb (at_end cend || (hd0 cend =? 47)) then None
-             else Some (v, cend) in
-      match r4 with
-      | None => None
-      | Some (i4, c2) =>
-          match c2 with
-          | 47 :: c3 =>
-              match c3 with
-              | 47 :: c4 =>
-                  if at_end c4 then None
-                  else let '(v, cend) := strtol_c c4 in
-                       let v := to_int32 v in
-                       if (v <? 0)%Z || (CIDR6_MAX <? v)%Z || negb (at_end cend) then None
-                       else Some (i4, v)
-              | _ => None
-              end
-          | _ => Some (i4, (-1)%Z)
-          end
-      end
-  | _ => Some ((-1)%Z, (-1)%Z)
+  if negb (hd0 s =? 47) then Some ((-1)%Z, (-1)%Z) else
+  let c := tl s in
+  let r4 :=
+    if hd0 c =? 47 then Some ((-1)%Z, s)
+    else if at_end c then None
+    else let '(v, cend) := strtol_c c in
+         let v := to_int32 v in
+         if (v <? 0)%Z || (CIDR4_MAX <? v)%Z || negb (at_end cend || (hd0 cend =? 47)) then None
+         else Some (v, cend) in
+  match r4 with
+  | None => None
+  | Some (i4, c2) =>
+      if negb (hd0 c2 =? 47) then Some (i4, (-1)%Z)
+      else
+        let c3 := tl c2 in
+        if negb (hd0 c3 =? 47) then None
+        else
+          let c4 := tl c3 in
+          if at_end c4 then None
+          else let '(v, cend) := strtol_c c4 in
+               let v := to_int32 v in
+               if (v <? 0)%Z || (CIDR6_MAX <? v)%Z || negb (at_end cend) then None
+               else Some (i4, v)
   end.
 
 Section Core.
@@ -347,12 +343,10 @@ Definition ip6_char (c : N) : bool := is_xdigit c || (c =? 58) || (c =? 46).
 
 (** the "/len" part of ip4 and ip6: None = SPF_PERMERROR *)
 Definition ip_prefix (rest : bytes) (lo hi : N) : option N :=
-  match rest with
-  | 47 :: r =>
-      let '(u, q) := strtoul_c r in
-      if (u <? lo) || (hi <? u) || negb (at_end q) then None else Some u
-  | _ => if at_end rest then Some hi else None
-  end.
+  if hd0 rest =? 47 then
+    let '(u, q) := strtoul_c (tl rest) in
+    if (u <? lo) || (hi <? u) || negb (at_end q) then None else Some u
+  else if at_end rest then Some hi else None.
 
 Definition spfip4 (tok : bytes) : Z :=
   if negb (client_v4 X) then SPF_NONE
@@ -450,88 +444,96 @@ Definition dns_mech (f : Cres (Z * list qev)) (name : bytes) (g : gst) : Cres tr
   if over then Ok (TRes SPF_FAIL (Some name) g1)
   else do r <- f; let '(res, q) := r in Ok (TRes res (Some name) (g_addq (g_term g1) q)).
 
+(** the qualifier: (prefix, text after it); None = neither qualifier nor letter *)
+Definition qualifier (tk : bytes) : option (Z * bytes) :=
+  let c := hd0 tk in
+  if c =? 45 then Some (SPF_FAIL, tl tk)
+  else if c =? 126 then Some (SPF_SOFTFAIL, tl tk)
+  else if c =? 43 then Some (SPF_PASS, tl tk)
+  else if c =? 63 then Some (SPF_NEUTRAL, tl tk)
+  else if is_alpha c then Some (SPF_PASS, tk)
+  else None.
+
+(** the include mechanism up to the mapping of the result; [nx]: text after "include" *)
+Definition include_eval (domain nx : bytes) (g : gst) : Cres (Z * gst) :=
+  if (may_have_domainspec nx =? 1)%Z then
+    do r <- spf_domainspec domain (tl nx);
+    let '(d, q) := r in
+    let g0 := g_addq g q in
+    match d with
+    | DErr c => Ok (c, g0)
+    | DOk ds i4 i6 =>
+        if (0 <=? i4)%Z || (0 <=? i6)%Z then Ok (SPF_PERMERROR, g0)
+        else
+          let '(over, g1) := g_limit g0 in
+          if over then Ok (SPF_FAIL, g1)
+          else match ds with
+               | Some n => rec n (g_term g1)
+               | None => Crash 1        (* spflookup(NULL, ...) *)
+               end
+    end
+  else Ok (SPF_PERMERROR, g).
+
+(** a term that is no mechanism: modifier or garbage.  [tk]: the whole term, [tok]: after the qualifier *)
+Definition modifier_eval (domain tk tok : bytes) (mechl : option bytes) (g : gst) : Cres tres :=
+  let eq := spf_modifier_name tok in
+  if Nat.eqb eq 0 then
+    Ok (TRes SPF_PERMERROR mechl (g_setexp g (Some (record_bad_token tk))))
+  else if negb (is_alpha (hd0 tk)) then
+    (* "modifier must not have qualification": token[-1] is the qualifier, not white space *)
+    Ok (TRes SPF_PERMERROR mechl (g_setexp g (Some (record_bad_token tk))))
+  else
+    do r <- makro (skipn (S eq) tok) domain false;
+    let '(m, q) := r in
+    let g0 := g_addq g q in
+    match m with
+    | MOk _ => Ok (TRes SPF_NONE mechl g0)
+    | MPerm => Ok (TRes SPF_PERMERROR mechl (g_setexp g0 (Some (record_bad_token tk))))
+    | MLocal => Ok (TRes (-1)%Z mechl g0)
+    end.
+
+(** the chain of match_mechanism() tests *)
+Definition mech_eval (domain tk tok : bytes) (mechl : option bytes) (g : gst) : Cres tres :=
+  match match_mechanism tok MECH_mx with
+  | Some nx => dns_mech (spfmx domain nx) M_MX g
+  | None =>
+  match match_mechanism tok MECH_ptr with
+  | Some nx => dns_mech (spfptr domain nx) M_PTR g
+  | None =>
+  match match_mechanism tok MECH_exists with
+  | Some nx =>
+      if hd0 nx =? 58 then dns_mech (spfexists domain (tl nx)) M_EXISTS g
+      else Ok (TRes SPF_PERMERROR mechl g)
+  | None =>
+  match match_mechanism tok MECH_all with
+  | Some _ => Ok (TRes SPF_PASS (Some M_ALL) g)
+  | None =>
+  match match_mechanism tok MECH_a with
+  | Some nx => dns_mech (spfa domain nx) M_A g
+  | None =>
+  match match_mechanism tok MECH_ip4 with
+  | Some nx =>
+      if hd0 nx =? 58 then Ok (TRes (spfip4 (tl nx)) (Some M_IP4) g)
+      else Ok (TRes SPF_PERMERROR mechl g)
+  | None =>
+  match match_mechanism tok MECH_ip6 with
+  | Some nx =>
+      if hd0 nx =? 58 then Ok (TRes (spfip6 (tl nx)) (Some M_IP6) g)
+      else Ok (TRes SPF_PERMERROR mechl g)
+  | None =>
+  match match_mechanism tok MECH_include with
+  | Some nx =>
+      do r <- include_eval domain nx g;
+      let '(res, g2) := r in
+      Ok (TRes (include_result res (g_q g2)) (Some M_INCLUDE) g2)
+  | None => modifier_eval domain tk tok mechl g
+  end end end end end end end end.
+
 (** [tk]: text from the start of the term; evaluates it *)
 Definition term_eval (domain : bytes) (tk : bytes) (mechl : option bytes) (g : gst) : Cres (Z * tres) :=
-  let c := hd0 tk in
-  let qual :=
-      if c =? 45 then Some (SPF_FAIL, tl tk)
-      else if c =? 126 then Some (SPF_SOFTFAIL, tl tk)
-      else if c =? 43 then Some (SPF_PASS, tl tk)
-      else if c =? 63 then Some (SPF_NEUTRAL, tl tk)
-      else if is_alpha c then Some (SPF_PASS, tk)
-      else None in
-  match qual with
+  match qualifier tk with
   | None => Ok (0%Z, TRet SPF_PERMERROR g)
-  | Some (prefix, tok) =>
-    do t <-
-      match match_mechanism tok MECH_mx with
-      | Some nx => dns_mech (spfmx domain nx) M_MX g
-      | None =>
-      match match_mechanism tok MECH_ptr with
-      | Some nx => dns_mech (spfptr domain nx) M_PTR g
-      | None =>
-      match match_mechanism tok MECH_exists with
-      | Some nx =>
-          if hd0 nx =? 58 then dns_mech (spfexists domain (tl nx)) M_EXISTS g
-          else Ok (TRes SPF_PERMERROR mechl g)
-      | None =>
-      match match_mechanism tok MECH_all with
-      | Some _ => Ok (TRes SPF_PASS (Some M_ALL) g)
-      | None =>
-      match match_mechanism tok MECH_a with
-      | Some nx => dns_mech (spfa domain nx) M_A g
-      | None =>
-      match match_mechanism tok MECH_ip4 with
-      | Some nx =>
-          if hd0 nx =? 58 then Ok (TRes (spfip4 (tl nx)) (Some M_IP4) g)
-          else Ok (TRes SPF_PERMERROR mechl g)
-      | None =>
-      match match_mechanism tok MECH_ip6 with
-      | Some nx =>
-          if hd0 nx =? 58 then Ok (TRes (spfip6 (tl nx)) (Some M_IP6) g)
-          else Ok (TRes SPF_PERMERROR mechl g)
-      | None =>
-      match match_mechanism tok MECH_include with
-      | Some nx =>
-          do r <-
-            (if (may_have_domainspec nx =? 1)%Z then
-               do r <- spf_domainspec domain (tl nx);
-               let '(d, q) := r in
-               let g0 := g_addq g q in
-               match d with
-               | DErr c => Ok (c, g0)
-               | DOk ds i4 i6 =>
-                   if (0 <=? i4)%Z || (0 <=? i6)%Z then Ok (SPF_PERMERROR, g0)
-                   else
-                     let '(over, g1) := g_limit g0 in
-                     if over then Ok (SPF_FAIL, g1)
-                     else match ds with
-                          | Some n => rec n (g_term g1)
-                          | None => Crash 1        (* spflookup(NULL, ...) *)
-                          end
-               end
-             else Ok (SPF_PERMERROR, g));
-          let '(res, g2) := r in
-          Ok (TRes (include_result res (g_q g2)) (Some M_INCLUDE) g2)
-      | None =>
-          (* a modifier *)
-          let eq := spf_modifier_name tok in
-          if Nat.eqb eq 0 then
-            Ok (TRes SPF_PERMERROR mechl (g_setexp g (Some (record_bad_token tk))))
-          else if negb (is_alpha c) then
-            (* "modifier must not have qualification": token[-1] is the qualifier, not white space *)
-            Ok (TRes SPF_PERMERROR mechl (g_setexp g (Some (record_bad_token tk))))
-          else
-            do r <- makro (skipn (S eq) tok) domain false;
-            let '(m, q) := r in
-            let g0 := g_addq g q in
-            match m with
-            | MOk _ => Ok (TRes SPF_NONE mechl g0)
-            | MPerm => Ok (TRes SPF_PERMERROR mechl (g_setexp g0 (Some (record_bad_token tk))))
-            | MLocal => Ok (TRes (-1)%Z mechl g0)
-            end
-      end end end end end end end end;
-    Ok (prefix, t)
+  | Some (prefix, tok) => do t <- mech_eval domain tk tok mechl g; Ok (prefix, t)
   end.
 
 (** outcome of the while loop: (result, prefix, mechanism) and state, or an immediate return *)
@@ -587,6 +589,27 @@ Definition do_exp (domain : bytes) (expl : bytes) (g : gst) : Cres gst :=
   | _ => Ok g0
   end.
 
+(** the redirect modifier; [rd]: text after "redirect=" *)
+Definition redirect_eval (domain rd : bytes) (g1 : gst) : Cres (Z * gst) :=
+  do r <- spf_domainspec domain rd;
+  let '(d, q) := r in
+  let g2 := g_addq g1 q in
+  match d with
+  | DErr c => Ok (c, g2)
+  | DOk ds i4 i6 =>
+      if negb (i4 =? -1)%Z || negb (i6 =? -1)%Z then Ok (SPF_PERMERROR, g2)
+      else
+        let '(over, g3) := g_limit g2 in
+        if over then Ok (SPF_FAIL, g3)
+        else match ds with
+             | None => Crash 2         (* spflookup(NULL, ...) *)
+             | Some n =>
+                 do r2 <- rec n (g_term (g_setexp g3 None));
+                 let '(res, g4) := r2 in
+                 Ok (if (res =? SPF_NONE)%Z then SPF_FAIL else res, g4)
+             end
+  end.
+
 (** spflookup() after the TXT records are there *)
 Definition eval_record (domain : bytes) (valid : bytes) (g : gst) : Cres (Z * gst) :=
   let red := find_modifier MOD_REDIRECT valid 49 in
@@ -615,38 +638,13 @@ Definition eval_record (domain : bytes) (valid : bytes) (g : gst) : Cres (Z * gs
         Ok (result', g_setmech g2 mechl)
       else
         match red with
-        | Some rd =>
-            do r <- spf_domainspec domain rd;
-            let '(d, q) := r in
-            let g2 := g_addq g1 q in
-            match d with
-            | DErr c => Ok (c, g2)
-            | DOk ds i4 i6 =>
-                if negb (i4 =? -1)%Z || negb (i6 =? -1)%Z then Ok (SPF_PERMERROR, g2)
-                else
-                  let '(over, g3) := g_limit g2 in
-                  if over then Ok (SPF_FAIL, g3)
-                  else match ds with
-                       | None => Crash 2         (* spflookup(NULL, ...) *)
-                       | Some n =>
-                           do r2 <- rec n (g_term (g_setexp g3 None));
-                           let '(res, g4) := r2 in
-                           Ok (if (res =? SPF_NONE)%Z then SPF_FAIL else res, g4)
-                       end
-            end
+        | Some rd => redirect_eval domain rd g1
         | None => Ok (SPF_NEUTRAL, g1)
         end
   end.
 
-(** spflookup(domain, queries) up to the recursion *)
-Definition spflookup_body (domain : bytes) (g : gst) : Cres (Z * gst) :=
-  let '(early, ans, qt) :=
-      if Nat.eqb (g_q g) 0 then
-        if domain_invalid domain then (true, TxtErr TENoent, [])
-        else (false, d_txt D domain, [QT domain])
-      else let '(a, q) := txtlookup domain in (false, a, q) in
-  if early then Ok (SPF_PERMERROR, g) else
-  let g0 := g_addq g qt in
+(** spflookup() after the TXT lookup *)
+Definition records_eval (domain : bytes) (ans : txtans) (g0 : gst) : Cres (Z * gst) :=
   match ans with
   | TxtErr e => Ok (txt_result e, g0)
   | TxtRecs [] => Ok (SPF_NONE, g0)
@@ -657,6 +655,15 @@ Definition spflookup_body (domain : bytes) (g : gst) : Cres (Z * gst) :=
       | Some (Some valid) => eval_record domain valid g0
       end
   end.
+
+(** spflookup(domain, queries) up to the recursion *)
+Definition spflookup_body (domain : bytes) (g : gst) : Cres (Z * gst) :=
+  if Nat.eqb (g_q g) 0 then
+    (* "don't enforce valid domains on redirects" *)
+    if domain_invalid domain then Ok (SPF_PERMERROR, g)
+    else records_eval domain (d_txt D domain) (g_addq g [QT domain])
+  else
+    let '(a, q) := txtlookup domain in records_eval domain a (g_addq g q).
 
 End Loop.
 
